@@ -194,6 +194,9 @@ def run(ctx, only=None):
       cov['configs'].append(entry)
       ctx.sample({'config': name, 'history': [c['rpc'] + (':%s' % c.get('t', c.get('n', ''))) for c in recs[len(recs) // 2]['hist']],
                   'expected_update': recs[len(recs) // 2]['upd']})
+    # the views the delivery rule reads through (spec/TrialView.tla)
+    import c12_view
+    c12_view.run(ctx, d)
   cov['distinct_nontrivial'] = len(nontrivial)
   cov['evaluations'] = cov['traces_validated_against_impl']
   cov['rule'] = 'a case is one call history on the real service with a recording designer registered through PolicyFactory; distinct by call sequence'
@@ -202,6 +205,9 @@ def run(ctx, only=None):
 
 def replay(ctx, case):
   c = case['case']
+  if c.get('kind') == 'trial-view':
+    import c12_view
+    return c12_view.replay(ctx, c)
   with tlc.Scratch('c12') as d:
     upd, trials = run_history(c['hist'], c['conf'], c['mode'], c['backend'], d)
   if upd != c['expected_update'] or trials != c['expected_trials']:
